@@ -104,6 +104,21 @@ func runC02(c *engine.Ctx) {
 	if !yamlLegSafe(pl) {
 		w.yamlSafe = false
 	}
+	clashTypedEmpty := false
+	if fieldClash {
+		walkCommandSteps(pl.Steps, func(cs *pipeline.CommandStep, d int) {
+			for k := range cs.RemainingFields {
+				switch k {
+				case "label":
+					clashTypedEmpty = clashTypedEmpty || cs.Label == ""
+				case "key":
+					clashTypedEmpty = clashTypedEmpty || cs.Key == ""
+				case "env":
+					clashTypedEmpty = clashTypedEmpty || len(cs.Env) == 0
+				}
+			}
+		}, 0)
+	}
 	signed := 0
 	walkCommandSteps(pl.Steps, func(cs *pipeline.CommandStep, d int) { signed++ }, 0)
 	u := uploaderSign(c, "C02", pl, kp, repoURL)
@@ -159,8 +174,9 @@ func runC02(c *engine.Ctx) {
 	delivered := 0
 	ctx := context.Background()
 	failStep := func(oracle, cls string, v *verdict, stepDesc string) {
-		if fieldClash {
-			// input class of known finding D12
+		if clashTypedEmpty {
+			// input class of known finding D12 (JSON leg): the shadowed typed field is empty, so the
+			// marshaller emits the unknown key in its place
 			cls += " [interpolated unknown key equals a typed field name]"
 		}
 		c.Fail(oracle, cls, "%s\nkey=%s hops=%v entry=%d repo=%q\nstep as delivered: %s\noriginal document (%s):\n%s", describeVerdict(v), kp.kind, hopFmts, entry, repoURL, truncate(stepDesc, 1200), format, truncate(string(src), 1500))
